@@ -91,23 +91,49 @@ def facts(ctx):
 
 # ------------------------------------------------------------------ cases
 
+ATS_DEFAULT = [0, 1, 0]          # auto_timestamp_assertion: enabled=false, skip_existing=true, fetch_scope="all"
+
+
 def settings_of(c):
+    c = list(c) + ATS_DEFAULT[len(c) - 3:] if len(c) < 6 else list(c)
     s = {"verify": {"remote_manifest_fetch": bool(c[0]), "ocsp_fetch": bool(c[1])},
-         "builder": {"thumbnail": {"enabled": False}}}       # thumbnails make no request and cost seconds in a debug build
+         "builder": {"thumbnail": {"enabled": False},       # thumbnails make no request and cost seconds in a debug build
+                     "auto_timestamp_assertion": {"enabled": bool(c[3]), "skip_existing": bool(c[4]),
+                                                  "fetch_scope": "parent" if c[5] else "all"}}}
     if c[2]:
         s["builder"].update({"certificate_status_fetch": "all", "certificate_status_should_override": False})
     return s
 
 
-def cube():
+def mk(op, tsa, k, a, cfg, serve=True):
+    cfg = list(cfg) + ATS_DEFAULT[len(cfg) - 3:] if len(cfg) < 6 else list(cfg)
+    return {"op": op, "akind": k, "asset": a, "cfg": cfg, "settings": settings_of(cfg), "tsa": tsa,
+            "with_ingredient": op == "sign", "serve_manifest": serve}
+
+
+ATS_ALL = [[e, s, p] for e in (0, 1) for s in (0, 1) for p in (0, 1)]
+
+
+def cube(thorough=False):
     out = []
+    # settings(remote_manifest_fetch, ocsp_fetch, certificate_status_fetch) x kind x operation, auto time-stamping at its defaults
     for rm in (0, 1):
         for oc in (0, 1):
             for cs in (0, 1):
                 for k, a in KINDS.items():
                     for op, tsa in (("read", False), ("ingredient", False), ("sign", False), ("sign", True)):
-                        out.append({"op": op, "akind": k, "asset": a, "cfg": [rm, oc, cs], "settings": settings_of((rm, oc, cs)),
-                                    "tsa": tsa, "with_ingredient": op == "sign", "serve_manifest": True})
+                        out.append(mk(op, tsa, k, a, [rm, oc, cs]))
+    # auto_timestamp_assertion (enabled x skip_existing x fetch_scope) x kind, importing the asset as parent and signing
+    # with a signer that names a TSA (and, for enabled, one that does not)
+    bases = [[rm, oc, cs] for rm in (0, 1) for oc in (0, 1) for cs in (0, 1)] if thorough else [[1, 0, 0]]
+    for base in bases:
+        for ats in ATS_ALL:
+            if ats == ATS_DEFAULT:
+                continue
+            for k, a in KINDS.items():
+                out.append(mk("sign", True, k, a, base + ats))
+                if ats[0] and (thorough or ats[1] == 0):
+                    out.append(mk("sign", False, k, a, base + ats))
     return out
 
 
@@ -115,16 +141,13 @@ def extra_cases(rng, n):
     out = []
     for _ in range(n):
         k, a = rng.choice(EXTRA)
-        c = [rng.randrange(2), rng.randrange(2), rng.randrange(2)]
+        c = [rng.randrange(2) for _ in range(6)]
         op, tsa = rng.choice([("read", False), ("ingredient", False), ("sign", False), ("sign", True)])
-        serve = False
-        out.append({"op": op, "akind": k, "asset": a, "cfg": c, "settings": settings_of(c), "tsa": tsa,
-                    "with_ingredient": op == "sign", "serve_manifest": serve})
+        out.append(mk(op, tsa, k, a, c, serve=False))
     # resolver answers 404 for the built remote-only asset
     for c in ([1, 0, 0], [1, 1, 1]):
         for op in ("read", "ingredient"):
-            out.append({"op": op, "akind": "ARemoteOnly", "asset": KINDS["ARemoteOnly"], "cfg": c, "settings": settings_of(c),
-                        "tsa": False, "with_ingredient": False, "serve_manifest": False})
+            out.append(mk(op, False, "ARemoteOnly", KINDS["ARemoteOnly"], c, serve=False))
     return out
 
 
@@ -143,12 +166,12 @@ def classify(case, q):
     u = q["url"]
     if q["via"] == "tsa-listener":
         return "tsa"
+    if q["method"] == "POST" and case.get("tsa") and "/tsa" in u and u.startswith("http://127.0.0.1:"):
+        return "tsa_ing"       # RFC 3161 request to the signer's TSA URL made through the Context's resolver (Builder)
     if asset_url(case["asset"]) and u == asset_url(case["asset"]):
         return "manifest"
     if q["method"] == "GET" and re.search(r"/M[A-Za-z0-9+/=%]{40,}$", u):     # responder URL + base64(DER OCSPRequest)
         return "ocsp"
-    if q["method"] == "POST":
-        return "tsa"
     return "unknown"
 
 
@@ -156,7 +179,8 @@ OPK = {"read": "OpRead", "ingredient": "OpIngredient", "sign": "OpSign"}
 
 
 def model_expr(c):
-    cf = "C " + " ".join("true" if x else "false" for x in c["cfg"])
+    cfg = list(c["cfg"]) + ATS_DEFAULT[len(c["cfg"]) - 3:] if len(c["cfg"]) < 6 else c["cfg"]
+    cf = "C " + " ".join("true" if x else "false" for x in cfg)
     return (f"show (requests ({cf}) (A {c['akind']} 7) {'STsa' if c['tsa'] else 'SNoTsa'} {OPK[c['op']]} "
             f"{'true' if c['serve_manifest'] else 'false'})")
 
@@ -167,7 +191,7 @@ def impl_outcome(case, r):
     k = r.get("kind")
     if k == "RemoteManifestUrl":
         return ["OErrRemoteUrl", r.get("detail")]
-    return {"JumbfNotFound": "OErrNoJumbf", "RemoteManifestFetch": "OErrFetch", "TimeStampError": "OErrTsa"}.get(k, "Err:" + str(k))
+    return {"JumbfNotFound": "OErrNoJumbf", "RemoteManifestFetch": "OErrFetch", "TimeStampError": "OErrTsa", "OtherError": "OErrTsaIng"}.get(k, "Err:" + str(k))
 
 
 def evaluate(ctx, cases, with_model=True):
@@ -176,9 +200,9 @@ def evaluate(ctx, cases, with_model=True):
     if with_model:
         model = common.coq_eval("C28", "From C2PA Require Import Model.NetGate.\nFrom Coq Require Import NArith List.\nImport ListNotations.\nOpen Scope N_scope.",
                                 [model_expr(c) for c in cases], shard_size=100)
-    stats = {"by_op": {}, "by_kind": {}, "requests": {"manifest": 0, "ocsp": 0, "tsa": 0, "unknown": 0}, "silent_cases": 0,
+    stats = {"by_op": {}, "by_kind": {}, "requests": {"manifest": 0, "ocsp": 0, "tsa": 0, "tsa_ing": 0, "unknown": 0}, "silent_cases": 0,
              "outcomes": {}}
-    KN = {0: "manifest", 1: "ocsp", 2: "tsa"}
+    KN = {0: "manifest", 1: "ocsp", 2: "tsa", 3: "tsa_ing"}
     for idx, c in enumerate(cases):
         r = impl[c["id"]]
         stats["by_op"][c["op"]] = stats["by_op"].get(c["op"], 0) + 1
@@ -195,7 +219,8 @@ def evaluate(ctx, cases, with_model=True):
         oc = impl_outcome(c, r)
         key = oc if isinstance(oc, str) else oc[0]
         stats["outcomes"][key] = stats["outcomes"].get(key, 0) + 1
-        rm, ocf, csf = c["cfg"]
+        rm, ocf, csf = c["cfg"][:3]
+        ats_enabled = bool(c["cfg"][3]) if len(c["cfg"]) > 3 else False
         # ---- oracle: the property text, on the implementation alone
         urls = [q["url"][:120] for q in r["requests"]]
         if "unknown" in kinds:
@@ -206,6 +231,9 @@ def evaluate(ctx, cases, with_model=True):
             ctx.report_violation(c, f"remote manifest requested although the asset has an embedded manifest / no reference: {urls}", mi)
         if "ocsp" in kinds and not (ocf or csf):
             ctx.report_violation(c, f"OCSP request with verify.ocsp_fetch=false and no certificate_status_fetch: {urls}", mi)
+        if "tsa_ing" in kinds and not (ats_enabled and c["tsa"]):
+            ctx.report_violation(c, f"time-stamp request for an ingredient manifest although builder.auto_timestamp_assertion.enabled="
+                                    f"{ats_enabled} / signer TSA URL={c['tsa']}: {urls}", mi)
         if "tsa" in kinds and not c["tsa"]:
             ctx.report_violation(c, f"time-stamp request although the signer has no TSA URL: {urls}", mi)
         if c["op"] == "read" and c["akind"] in ("ARemoteOnly", "ARemoteOnlyAia") and not rm:
@@ -230,16 +258,18 @@ def run(ctx):
     if ctx.replay:
         cases = [ctx.replay["case"]] if "case" in ctx.replay else [d["case"] for d in ctx.replay.get("disagreements", [])]
     else:
-        cases = corpus() + cube() + extra_cases(ctx.rng, 24 if ctx.quick() else 160)
+        cases = corpus() + cube(thorough=not ctx.quick()) + extra_cases(ctx.rng, 24 if ctx.quick() else 160)
     for i, c in enumerate(cases):
         c["id"] = i
     stats = evaluate(ctx, cases)
     ctx.coverage.update({
         "evaluations": len(cases),
         "distinct_nontrivial": len(set((c["op"], c["akind"], tuple(c["cfg"]), c["tsa"], c["serve_manifest"], c["asset"].get("name")) for c in cases
-                                       if any(c["cfg"]) or c["tsa"] or c["akind"] in ("ARemoteOnly", "ARemoteEmbedded"))),
+                                       if any(c["cfg"][:4]) or c["tsa"] or c["akind"] in ("ARemoteOnly", "ARemoteEmbedded"))),
         "rule": "the whole cube settings(remote_manifest_fetch, ocsp_fetch, certificate_status_fetch) x 7 exercisable asset kinds x "
-                "{read, ingredient import, import+sign without TSA, import+sign with TSA URL} (224 points) + seeded other representatives "
+                "{read, ingredient import, import+sign without TSA, import+sign with TSA URL} (224 points) + builder.auto_timestamp_assertion "
+                "(enabled x skip_existing x fetch_scope) x kind for import-as-parent + sign with / without TSA URL (ingredient manifests with and "
+                "without an existing time stamp; thorough: x all 8 base settings) + seeded other representatives "
                 "of the kinds and a resolver answering 404; non-trivial = some setting on, a TSA URL, or a remote reference present",
         "distribution": stats,
         "traces_validated_against_impl": len(cases),
@@ -249,7 +279,7 @@ def run(ctx):
 
 def search(ctx):
     common.build_harness()
-    cases = cube() + extra_cases(ctx.rng, 300)
+    cases = cube(thorough=True) + extra_cases(ctx.rng, 300)
     for i, c in enumerate(cases):
         c["id"] = i
     evaluate(ctx, cases, with_model=False)
